@@ -165,6 +165,11 @@ def ref_evaluate(text):
         inner = ref_evaluate(stripped)
         if inner[0] in ('int', 'float'):
             return inner
+        if inner[0] == 'str' and stripped[:1] == '"' and \
+                inner[1] != stripped:
+            # a JSON string padded with JSON white space (not an atom the
+            # lexer can produce): json reads it as the string
+            return inner
         if inner[0] == 'str' and stripped in ('true', 'false', 'null'):
             return ('json-literal', stripped)
     return ('str', text)
